@@ -238,6 +238,9 @@ func scanPackage(dir, label string, imp types.Importer, out *ssOut, structs []st
 			}
 		}
 	}
+	if label == "hermes" {
+		scanBounds(files, out, pos)
+	}
 	return pkg
 }
 
@@ -491,4 +494,66 @@ func stmtString(s ast.Stmt) string {
 		return exprString(v.X) + v.Tok.String()
 	}
 	return "?"
+}
+
+// scanBounds lists the fixed sizes that an event counter or a day index can run into:
+//
+//	BOUND make <target> <n> <file:line>      make([]T, n) with a literal n >= 32
+//	BOUND array <Struct.Field> <n> <file:line>  struct field of type [n]T (or [n][m]T) with a literal n >= 50
+func scanBounds(files []*ast.File, out *ssOut, pos func(token.Pos) string) {
+	lit := func(e ast.Expr) (int, bool) {
+		bl, ok := e.(*ast.BasicLit)
+		if !ok || bl.Kind != token.INT {
+			return 0, false
+		}
+		n := 0
+		fmt.Sscanf(bl.Value, "%d", &n)
+		return n, true
+	}
+	isMake := func(e ast.Expr) (int, bool) {
+		ce, ok := e.(*ast.CallExpr)
+		if !ok || len(ce.Args) < 2 {
+			return 0, false
+		}
+		if id, ok := ce.Fun.(*ast.Ident); !ok || id.Name != "make" {
+			return 0, false
+		}
+		if _, ok := ce.Args[0].(*ast.ArrayType); !ok {
+			return 0, false
+		}
+		return lit(ce.Args[1])
+	}
+	for _, f := range files {
+		ast.Inspect(f, func(n ast.Node) bool {
+			switch v := n.(type) {
+			case *ast.KeyValueExpr:
+				if k, ok := isMake(v.Value); ok && k >= 32 {
+					out.add("BOUND make %s %d %s", exprString(v.Key), k, pos(v.Pos()))
+				}
+			case *ast.AssignStmt:
+				for i, r := range v.Rhs {
+					if k, ok := isMake(r); ok && k >= 32 && i < len(v.Lhs) {
+						out.add("BOUND make %s %d %s", exprString(v.Lhs[i]), k, pos(v.Pos()))
+					}
+				}
+			case *ast.TypeSpec:
+				st, ok := v.Type.(*ast.StructType)
+				if !ok {
+					return true
+				}
+				for _, fl := range st.Fields.List {
+					at, ok := fl.Type.(*ast.ArrayType)
+					if !ok || at.Len == nil {
+						continue
+					}
+					if k, ok := lit(at.Len); ok && k >= 50 {
+						for _, nm := range fl.Names {
+							out.add("BOUND array %s.%s %d %s", v.Name.Name, nm.Name, k, pos(fl.Pos()))
+						}
+					}
+				}
+			}
+			return true
+		})
+	}
 }
